@@ -39,6 +39,11 @@ register('C15', 'Hypothesis-generated (base rule, constructor, mirror sequence, 
          'total degree per case; involution / non-aliasing of mirrors; sym vs non-sym Duffy; convergence of log-singular model integrals to mpmath closed forms.',
          'tolerance 1e-12 plus node-rounding term for boxes far from the origin; symmetric Duffy variants are tested on symmetric integrands only (what they are for)', 'DESIGN.md 3/C15')
 
+register('C14', 'Hypothesis-generated orders, intervals, rational polynomials and placements against exact rational closed forms; algebraic laws; graded corner reference',
+         'H^1/4 and H^1/2 seminorm routines vs closed forms in Fractions (1e-12, scaled by the conditioning of differencing a function with large mean), '
+         'non-negativity, constants, quadratic scaling, translation, straight-segment variant == flat, two-piece corner vs independent graded reference.',
+         'closed forms of vlib/slobo.py; corner reference accepted only when two resolutions agree to 1e-8', 'DESIGN.md 3/C14')
+
 NOT_YET = {}
 def main():
     props = [json.loads(l)['id'] for l in open(os.path.join(V, 'properties.jsonl'))]
